@@ -733,7 +733,34 @@ struct CxxDlistWorld
                 --it;
                 rev2.push_back((*it).id);
             }
+            // the remaining stepping forms: postfix ++ / -- of the forward iterator, prefix and postfix -- of the reverse
+            // iterator (from rend() back to rbegin(): forward order), postfix ++ of the reverse iterator
+            std::vector<int> fwd_post, rev_post, rrev_pre, rrev_post, rev_postinc;
+            for (auto it = L.begin(); it != L.end(); it++)
+                fwd_post.push_back(it->id);
+            for (auto it = L.end(); it != L.begin();)
+            {
+                it--;
+                rev_post.push_back(it->id);
+            }
+            for (auto it = L.rend(); it != L.rbegin();)
+            {
+                --it;
+                rrev_pre.push_back(it->id);
+            }
+            for (auto it = L.rend(); it != L.rbegin();)
+            {
+                it--;
+                rrev_post.push_back(it->id);
+            }
+            for (auto it = L.rbegin(); it != L.rend(); it++)
+                rev_postinc.push_back(it->id);
             std::vector<int> mrev(ring[l].rbegin(), ring[l].rend());
+            VP_CHECK(fwd_post == ring[l] && rrev_pre == ring[l] && rrev_post == ring[l], "cxx_dlist_iterator_steps",
+                     "L%zu: it++ walk %s, --rit walk from rend() %s, rit-- walk from rend() %s, reference %s", l, seq_str(fwd_post).c_str(), seq_str(rrev_pre).c_str(),
+                     seq_str(rrev_post).c_str(), seq_str(ring[l]).c_str());
+            VP_CHECK(rev_post == mrev && rev_postinc == mrev, "cxx_dlist_iterator_steps", "L%zu: it-- walk from end() %s, rit++ walk %s, reference reversed %s", l,
+                     seq_str(rev_post).c_str(), seq_str(rev_postinc).c_str(), seq_str(mrev).c_str());
             VP_CHECK(fwd == ring[l], "cxx_dlist_forward", "L%zu forward %s, reference %s", l, seq_str(fwd).c_str(), seq_str(ring[l]).c_str());
             VP_CHECK(rev == mrev && rev2 == mrev, "cxx_dlist_backward", "L%zu backward %s, reference reversed %s", l, seq_str(rev).c_str(),
                      seq_str(mrev).c_str());
